@@ -256,7 +256,16 @@ def parseOut (O : Oracle) (es : List OEntry) (text : L) : String :=
     if !toks.all (known es) then "oracle-missing" else
     match parseToks O toks with
     | .error e => "err " ++ e.str
-    | .ok q => "ok " ++ dumpQuery q ++ " " ++ hx q.print
+    | .ok q =>
+      -- the parsed query's own round trip
+      let p := q.print
+      match lex p with
+      | .error e => s!"ok {dumpQuery q} {hx p} err:{e.str}"
+      | .ok toks2 =>
+        if !toks2.all (known es) then "oracle-missing" else
+        match parseToks O toks2 with
+        | .error e => s!"ok {dumpQuery q} {hx p} err:{e.str}"
+        | .ok q2 => if q2.print = p then s!"ok {dumpQuery q} {hx p} same" else s!"ok {dumpQuery q} {hx p} diff:{hx q2.print}"
 
 /-! ### sentences -/
 
